@@ -46,6 +46,8 @@ ASSUMPTIONS = [
     "filter pattern / optimally persistent pattern are told apart by their definitions (series = data.filter, pattern = regression of data on series), each up to one real factor per mode",
 ]
 KINDS = ("white", "ar1", "ar1_lowrank", "antipersistent")
+# "tiny_pc": the most persistent latent source has a tiny amplitude (3e-7 of the others) but is retained as a PC;
+# structured family only (see cases())
 SOLVERS = ("full", "auto", "randomized")
 _CTAU_TOL = 1e-10
 
@@ -136,6 +138,12 @@ def cases(tier, seed):
                 for msel in ("1", "rand", "npca"):
                     out.append(_draw(gen.rng_for(1019, i), kind, tsel, qsel, msel))
                     i += 1
+    for j in range(8):
+        c = _draw(gen.rng_for(1919, j), "white", "rand", "rank", "npca")
+        c.update(kind="tiny_pc", n=int(60 + 10 * j), p=int(3 + j % 4), center=True, standardize=False, coslat=False, weights=False, solver="full", scale_exp=0)
+        c["n_pca"] = c["n_modes"] = c["p"]
+        c["tau_max"] = 5
+        out.append(c)
     nrand = 1000 if tier == "quick" else 16000
     for j in range(nrand):
         out.append(_draw(gen.rng_for(seed, 19, j)))
@@ -151,6 +159,12 @@ def build(case):
     phis = None
     if kind == "white":
         M = rng.standard_normal((n, p)) * rng.uniform(0.5, 1.5, size=p)
+    elif kind == "tiny_pc":
+        phis = np.concatenate([[0.97], np.linspace(0.6, 0.0, p - 1)])
+        Z = gen.ar1(n, p, phis, rng, mix=False)
+        Z = Z / Z.std(axis=0)
+        amp = np.concatenate([[3e-7], rng.uniform(0.5, 1.0, size=p - 1)])
+        M = (Z * amp) @ gen.orthonormal(p, p, rng).T
     elif kind in ("ar1", "antipersistent"):
         # latent AR(1) sources with a known persistence ordering, mixed by a well-conditioned map
         phis = np.sort(rng.uniform(-0.9, 0.3, size=p))[::-1] if kind == "antipersistent" else np.linspace(0.95, 0.0, p) * rng.uniform(0.8, 1.0)
@@ -301,8 +315,8 @@ def run_case(case, obs):
     tol = 1e-9 if exact and (relgap >= 1e-3 or q >= nz) else 1e-6
     obs.cell("tol:%g" % tol)
     Uq = U[:, :q]
-    F = Uq * sv[:q] / np.sqrt(n - 1) / np.sqrt(n - 1)  # any basis of the subspace would do: T(w) is basis independent
-    F = F / np.abs(F).max()
+    F = Uq * np.sqrt(n - 1)  # any basis of the subspace would do: T(w) is basis independent; unit-variance PCs keep
+    # the oracle's generalised eigenproblem well conditioned whatever the amplitudes of the retained PCs are
     C0 = lag_cov(F, 0)
     C0 = 0.5 * (C0 + C0.T)
     Msym = lag_sum_matrix(F, tau_max)
@@ -310,7 +324,10 @@ def run_case(case, obs):
     cond0 = float(np.linalg.cond(C0))
     obs.note("cond_C0", cond0)
     obs.note("spectrum", {"max": float(mu[0]), "min": float(mu[-1])})
-    tol = tol * max(1.0, cond0 / 1e6)
+    # conditioning of the problem as xeofs poses it (amplitude-weighted PCs): variance ratio of the retained PCs
+    cond_amp = float((sv[0] / max(sv[q - 1], 1e-300)) ** 2)
+    obs.note("cond_retained_pc_variances", cond_amp)
+    tol = tol * max(1.0, cond0 / 1e6, cond_amp / 1e6)
     # what an |eigenvalue| ordering would select (mechanism of the known defect): is a negative lag sum among them?
     by_abs = np.argsort(-np.abs(mu))[:m]
     neg_selected = bool(np.any(mu[by_abs] < 0))
@@ -328,6 +345,11 @@ def run_case(case, obs):
     obs.close("scores_gram_cI", G, c * np.eye(m), max(tol, 1e-9), scale=c, tags={"symptom": "scores_not_uncorrelated"})
     if cname == "centred":
         obs.close("scores_zero_mean", S.mean(axis=0), np.zeros(m), max(tol, 1e-9), scale=np.sqrt(c / n), tags={"symptom": "scores_not_uncorrelated"})
+    # "uncorrelated" is a statement about the Pearson correlation: the centred Gram matrix must be c'*I as well
+    Sc = S - S.mean(axis=0)
+    Gc = Sc.T @ Sc
+    cc_ = float(np.trace(Gc) / m)
+    obs.close("scores_pearson_uncorrelated_equal_norm", Gc, cc_ * np.eye(m), max(tol, 1e-9), scale=max(cc_, 1e-300), tags={"symptom": "scores_not_uncorrelated"})
     obs.close("scores_in_pc_subspace", resid, 0.0, max(tol, 1e-9), scale=1.0, tags={"symptom": "scores_outside_pc_subspace"})
 
     # ---- bi-orthogonality ---------------------------------------------------------------
@@ -347,6 +369,11 @@ def run_case(case, obs):
         alpha = num / np.where(den > 0, den, 1.0)
         err = np.linalg.norm(got - want * alpha, axis=0) / np.maximum(np.linalg.norm(got, axis=0), 1e-300)
         obs.close(name, err, np.zeros(m), max(tol, 1e-9) * 10, scale=1.0, tags={"symptom": sym})
+        if name == "series_is_data_dot_filter":
+            # projecting the data on filter pattern i must give series i itself, with ONE common positive factor
+            # (a per-mode sign flip of the filters only would leave bi-orthogonality of the off-diagonals intact)
+            obs.check("filter_projection_factor_positive", bool(np.all(alpha > 0)), f"per-mode factors {alpha}", tags={"symptom": "filter_pattern_sign"})
+            obs.close("filter_projection_factor_common", alpha / alpha[0], np.ones(m), max(tol, 1e-9) * 100, scale=1.0, tags={"symptom": "filter_pattern_definition"})
 
     # ---- reported decorrelation time == trapezoidal lag sum of the mode's OWN series ---------------
     T_own = np.array([decorr_time(S[:, i], tau_max) for i in range(m)])
